@@ -331,6 +331,20 @@ class RangeFrame(Frame):
                     self.ev(n['inc'])
             return
         Frame.ex(self, nid)
+        if k == 'DeclStmt':
+            # a named guard (`const bool inrange = ilat < td; if (!inrange) throw ...`): remember the defining
+            # comparison together with the values its variables had, so that a branch on the name refines them
+            for d in n['decls']:
+                if d.get('t', '').replace('const ', '').strip() == 'bool' and d.get('init', -1) is not None \
+                        and d.get('init', -1) >= 0:
+                    snap = {}
+                    for j in f.walk(d['init']):
+                        m = f.nodes[j]
+                        if m['k'] == 'DeclRefExpr' and m.get('rk') in ('local', 'param'):
+                            snap[m['d']] = self.env.get(m['d'], UNK)
+                    if not hasattr(self, 'booldefs'):
+                        self.booldefs = {}
+                    self.booldefs[d['d']] = (d['init'], snap)
 
     # ---------------------------------------------------------------- refinement by a chosen branch
     def refine(self, cond, truth):
@@ -338,6 +352,11 @@ class RangeFrame(Frame):
         i = f.strip_casts(cond)
         n = f.nodes[i]
         k = n['k']
+        if k == 'DeclRefExpr' and n.get('rk') == 'local' and n.get('d') in getattr(self, 'booldefs', {}):
+            init, snap = self.booldefs[n['d']]
+            if all(self.env.get(v, UNK) is val for v, val in snap.items()):
+                self.refine(init, truth)
+            return
         if k == 'UnaryOperator' and n.get('op') == '!':
             return self.refine(n['ch'][0], not truth)
         if k == 'BinaryOperator' and n['op'] in ('&&', '||'):
